@@ -345,27 +345,6 @@ static void load2(G& g, const std::string& p1, const std::string& p2,
   }
 }
 
-// A failure that must not stop the rest of the run (known defects): the first
-// one is rethrown at the end.
-struct Deferred {
-  bool failed = false;
-  sx::Fail first;
-  template <class F>
-  void run(F f) {
-    try {
-      f();
-    } catch (const sx::Fail& x) {
-      if (!failed)
-        first = x;
-      failed = true;
-    }
-  }
-  void rethrow() {
-    if (failed)
-      throw first;
-  }
-};
-
 // ===========================================================================
 // LC_CSR_Graph
 // ===========================================================================
@@ -589,14 +568,22 @@ static void csr_layout(const std::string& L, const Ctx& c, Files<E>& files,
   }
 }
 
-// Cost model.  On this kind of machine a Galois parallel region with 3-4
-// (sleeping) pool threads costs ~0.1 ms, and transpose() alone is ~16 regions.
-// For the enumerated small graphs the full programme (every builder, every
-// view) therefore runs with T = 1 and T = 2; with T = 3 and T = 4 each layout
+// Cost model.  A Galois parallel region with sleeping pool threads costs
+// 0.02 (T = 2) to 0.1 ms (T = 4) on an idle machine and milliseconds on a busy
+// one, and transpose() alone is ~16 regions.  For the enumerated small graphs
+// the FULL programme (every builder, every view) therefore runs with T = 1 and
+// T = 2 (quick tier, T = 2: only for the edge types void and pod12, the two
+// extremes of the edge record size); in the other configurations each layout
 // is built by readGraph (the per-thread constructFrom, whose node division is
 // what depends on T) and gets the non-modifying checks incl. the local ranges.
-// The structured family runs the full programme for every T.
-static bool full_programme(const Ctx& c) { return c.T <= 2 || !c.r.small(); }
+// The structured family runs the full programme in every configuration.
+static bool full_programme(const Ctx& c) {
+  if (!c.r.small() || c.T == 1)
+    return true;
+  if (c.T == 2)
+    return c.thorough || c.en[0] == 'v' || c.en[0] == 'p';
+  return false;
+}
 
 // Default layout: every builder, every view.  NUMA-blocked: file builders and
 // every view (transpose allocates blocked).  The lockable options change the
@@ -672,21 +659,39 @@ static void csr_units_run(const Ctx& c) {
   const std::string K = "determineUnitRangesFromGraph(LC_CSR_Graph)";
   G g;
   gg::readGraph(g, files.fwd(1));
-  uint32_t units = (uint32_t)c.T;
+  // units = T for the enumerated graphs; the structured family (at T = 1, the
+  // function does not depend on the active threads) also with 7, 64 and n+1.
   struct Call {
-    uint32_t alpha, b, e;
+    uint32_t units, alpha, b, e;
     bool clipped;
   };
   std::vector<Call> calls;
-  for (uint32_t alpha : {0u, 1u})
-    calls.push_back(Call{alpha, 0, (uint32_t)c.r.n, false});
-  if (c.r.n <= 3) // clipped to every non-empty sub-range of the nodes
+  std::vector<uint32_t> unitsList = {(uint32_t)c.T};
+  if (!c.r.name.empty() && c.T == 1) {
+    unitsList.push_back(7);
+    unitsList.push_back(64);
+    unitsList.push_back((uint32_t)c.r.n + 1);
+  }
+  for (uint32_t units : unitsList)
+    for (uint32_t alpha : {0u, 1u})
+      calls.push_back(Call{units, alpha, 0, (uint32_t)c.r.n, false});
+  if (c.r.name.empty()) {
+    // enumerated graphs: clipped to every non-empty proper sub-range
     for (uint32_t b = 0; b < c.r.n; ++b)
       for (uint32_t e = b + 1; e <= c.r.n; ++e)
         if (!(b == 0 && e == c.r.n))
-          calls.push_back(Call{(b + e) % 2, b, e, true});
+          calls.push_back(Call{(uint32_t)c.T, (b + e) % 2, b, e, true});
+  } else if (c.T == 1) {
+    // family: a few sub-ranges
+    for (uint32_t units : {3u, 16u}) {
+      uint32_t n = (uint32_t)c.r.n;
+      calls.push_back(Call{units, 0, n / 3, n, true});
+      calls.push_back(Call{units, 1, 0, n / 2, true});
+      calls.push_back(Call{units, 0, n / 4, n / 4 + 1, true});
+    }
+  }
   auto ctx_of = [&](const Call& k) {
-    return c.str() + " units=" + std::to_string(units) +
+    return c.str() + " units=" + std::to_string(k.units) +
            " nodeAlpha=" + std::to_string(k.alpha) +
            (k.clipped ? " range=[" + std::to_string(k.b) + "," +
                             std::to_string(k.e) + ")"
@@ -699,15 +704,15 @@ static void csr_units_run(const Ctx& c) {
       [&](size_t i, bool check) {
         const Call& k = calls[i];
         std::vector<uint32_t> v =
-            k.clipped
-                ? gg::determineUnitRangesFromGraph(g, units, k.b, k.e, k.alpha)
-                : gg::determineUnitRangesFromGraph(g, units, k.alpha);
+            k.clipped ? gg::determineUnitRangesFromGraph(g, k.units, k.b, k.e,
+                                                         k.alpha)
+                      : gg::determineUnitRangesFromGraph(g, k.units, k.alpha);
         if (!check)
           return;
         std::ostringstream o;
-        for (auto x : v)
-          o << x << " ";
-        bool ok = v.size() == (size_t)units + 1 && v.front() == k.b &&
+        for (size_t j = 0; j < v.size() && j < 24; ++j)
+          o << v[j] << " ";
+        bool ok = v.size() == (size_t)k.units + 1 && v.front() == k.b &&
                   v.back() == k.e;
         for (size_t j = 1; ok && j < v.size(); ++j)
           ok = v[j - 1] <= v[j];
@@ -1758,19 +1763,21 @@ struct Layout {
   RunFn fn[4]; // by edge type
   std::vector<int> Es, Ts;
   bool with_family = true;
+  int quick_allE_maxT = 2; // quick tier: all of Es up to this T, then a subset
 };
 #define FN4(f)                                                                 \
   { f<void>, f<uint32_t>, f<uint64_t>, f<E12> }
 
 // The (T, E) configurations a layout runs per graph.  Thorough: the full
-// product Ts x Es.  Quick: for T >= 3 only the edge types void and pod12 (the
-// two extremes of the edge record size) as far as the layout uses them.
+// product Ts x Es.  Quick: for T >= 3 (readGraphFromGRFile, which forks a probe
+// per input: T >= 2) only the edge types void and pod12 (the two extremes of
+// the edge record size) as far as the layout uses them.
 static std::vector<std::pair<int, int>> configs(const Layout& L, bool th) {
   std::vector<std::pair<int, int>> v;
   for (int T : L.Ts) {
     std::vector<int> es;
     for (int E : L.Es)
-      if (th || T <= 2 || E == 0 || E == 3)
+      if (th || T <= L.quick_allE_maxT || E == 0 || E == 3)
         es.push_back(E);
     if (es.empty())
       es.push_back(L.Es[0]);
@@ -1805,7 +1812,13 @@ static sx::EnumCase small_case(const Layout& L) {
     Ref r     = small_decode(d.gi, small_maxm(th));
     galois::setActiveThreads(d.T);
     Ctx ctx{r, d.T, ENAMES[d.E], th};
-    L.fn[d.E](ctx);
+    current_case() = L.name;
+    try {
+      L.fn[d.E](ctx);
+    } catch (const sx::Fail& f) {
+      if (key_claim(f.key)) // one report per (case, key), see c11_common.h
+        throw;
+    }
   };
   c.describe = [L](uint64_t idx, bool th) {
     Decoded d = decode_cfg(L, idx, th);
@@ -1845,7 +1858,13 @@ static sx::EnumCase family_case(const std::vector<Layout>& Ls) {
     D d = dec(idx, th);
     galois::setActiveThreads(d.T);
     Ctx ctx{family()[d.gi], d.T, ENAMES[d.E], th};
-    Ls[d.l].fn[d.E](ctx);
+    current_case() = "family";
+    try {
+      Ls[d.l].fn[d.E](ctx);
+    } catch (const sx::Fail& f) {
+      if (key_claim(f.key))
+        throw;
+    }
   };
   c.describe = [Ls, dec](uint64_t idx, bool th) {
     D d = dec(idx, th);
@@ -1869,7 +1888,7 @@ int main(int argc, char** argv) {
   layouts.push_back({"LC_CSR_Graph determineUnitRangesFromGraph",
                      FN4(csr_units_run), {0}, ALLT});
   layouts.push_back({"LC_CSR_Graph readGraphFromGRFile v1/v2",
-                     FN4(csr_grfile_run), ALLE, {1, 2}});
+                     FN4(csr_grfile_run), ALLE, {1, 2}, true, 1});
   layouts.push_back({"LC_CSR_CSC_Graph", FN4(csc_run), ALLE, ALLT});
   layouts.push_back({"LC_InOut_Graph", FN4(inout_run), ALLE, ALLT});
   layouts.push_back({"LC_Linear_Graph", FN4(linear_run), ALLE, ALLT});
@@ -1885,5 +1904,9 @@ int main(int argc, char** argv) {
   }
   en.push_back(family_case(fam));
   en.push_back(probe_case());
-  return sx::sx_main(argc, argv, "C11", {}, en);
+  int rc = sx::sx_main(argc, argv, "C11", {}, en);
+  // workers killed at a deadline cannot remove their scratch files
+  grf::remove_stale("c11");
+  grf::remove_stale("c11t");
+  return rc;
 }
